@@ -1,2 +1,102 @@
-(* C06 - placeholder while the model is being validated *)
-From Asynkit Require Import Base.Prelude Coro.Tree Coro.AsyncGen Coro.GenObj Coro.GenObjProofs.
+(* C06 - GeneratorObject iterators behave like native async generators.
+
+   A generator body is a tree [c : coro] (Coro/Tree.v).  `yield d` -- for
+   asynkit `await g.ayield(d)`, i.e. Monitor.oob(d) -- is the marked suspension
+   [yield_ d kr ke] = Eff (EUser 0 d) (Susp d ..); every other [Susp] is a real
+   suspension (an await that yields to the event loop).
+     [ag_hstep]  one step of a consumer history on CPython 3.12.1's async
+                 generator object (Coro/AsyncGen.v: ag_running_async, ag_closed,
+                 the asend/athrow/aclose awaitables, PEP 479/525 conversions,
+                 the 3.12.1 ag_running quirk),
+     [go_hstep]  the same step on asynkit's GeneratorObjectIterator over Monitor
+                 over the body coroutine (Coro/GenObj.v).
+   A history is a list of  HStart (CSend v | CThrow e | CClose)  (a consumer
+   creates asend(v) / athrow(e) / aclose() and starts it with send(None), also
+   while another awaitable is suspended) and  HResume (Send v | Throw e)  (the
+   suspended awaitable is resumed).  Both models are compared with the real
+   objects on every run of ./check C06.
+
+   Domain: [oob_free c] -- the body never raises asynkit's own OOBData;
+   [ok_history h] -- exceptions passed to athrow() are not StopIteration /
+   StopAsyncIteration / OOBData, a suspended awaitable is not resumed with a
+   direct throw(GeneratorExit) (await never does that) nor with OOBData.
+   Examples ex_throw_genexit_differs / ex_athrow_stopiteration_differs
+   (GenObjProofs.v) show that the excluded inputs are real differences.
+
+   Not in the model: asyncgen hooks (sys.set_asyncgen_hooks) / finalizers /
+   __del__ -- they depend on garbage collection.  Not proved: C06_aiter_sync
+   (composition with C05). *)
+From Asynkit Require Import Base.Prelude Base.Obs Coro.Tree Coro.Native Coro.TreeProofs
+  Coro.AsyncGen Coro.GenObj Coro.GenObjSim Coro.GenObjProofs.
+
+(* For EVERY body tree of the domain, every store and EVERY consumer history:
+   step by step the two objects produce the same body events and the same
+   result -- value yielded to the loop / value returned / exception type and
+   cause type ([same_result], [abs_outcome]) -- and, as long as the native
+   object has not been left in a stop state, also the same ag_running flag,
+   frame state (created / suspended / gone) and "an awaitable is left
+   suspended" ([same_obs]).  Stop states ([ag_stop]): aclose() reported
+   "ignored GeneratorExit" (the native generator is marked closed with a live
+   frame), or the 3.12.1 quirk left ag_running set on a generator whose frame
+   is gone; the result of the step that enters such a state is still equal. *)
+Theorem C06_equiv : forall (c : coro) (s : store) (h : list hop),
+  oob_free c -> ok_history h ->
+  (fix agree (sa : agen * option pend) (sg : gobj * option pend) (h : list hop) : Prop :=
+     match h with
+     | [] => True
+     | op :: t =>
+         let '(oa, sa') := ag_hstep sa op in
+         let '(og, sg') := go_hstep sg op in
+         (ho_events oa = ho_events og /\
+          option_map abs_outcome (ho_out oa) = option_map abs_outcome (ho_out og)) /\
+         (ag_stop oa (fst sa') = false ->
+          ((ho_events oa = ho_events og /\
+            option_map abs_outcome (ho_out oa) = option_map abs_outcome (ho_out og)) /\
+           ho_running oa = ho_running og /\ ho_fstate oa = ho_fstate og /\
+           ho_pending oa = ho_pending og) /\
+          agree sa' sg' t)
+     end) (ag_new c s, None) (go_new c s, None) h.
+Proof. exact genobj_equiv. Qed.
+Print Assumptions C06_equiv.
+
+(* The same as equality of whole traces, for histories on which the native
+   object never reaches a stop state. *)
+Theorem C06_equiv_traces : forall (c : coro) (s : store) (h : list hop),
+  oob_free c -> ok_history h -> never_stops (ag_new c s, None) h = true ->
+  Forall2 same_obs (ag_trace (ag_new c s, None) h) (go_trace (go_new c s, None) h).
+Proof. exact genobj_equiv_traces. Qed.
+Print Assumptions C06_equiv_traces.
+
+(* One step from related states (the simulation itself): [proj a p] is the
+   GeneratorObjectIterator that corresponds to the native generator a with the
+   suspended awaitable p; [inv] the invariant of reachable native states. *)
+Theorem C06_step : forall a p op, inv a p -> ok_hop op = true ->
+  let '(oa, sa') := ag_hstep (a, p) op in
+  let '(og, sg') := go_hstep (proj a p, p) op in
+  same_result oa og /\
+  (ag_stop oa (fst sa') = false ->
+   same_obs oa og /\ sg' = (proj (fst sa') (snd sa'), snd sa') /\ inv (fst sa') (snd sa')).
+Proof. exact step_sim. Qed.
+Print Assumptions C06_step.
+
+(* A second consumer that starts any call while the generator is running (the
+   first consumer's awaitable is suspended) gets RuntimeError "already running"
+   from both objects, which are left unchanged. *)
+Theorem C06_second_consumer : forall a g c,
+  ag_run a = true -> frame_done (ag_fr a) = false -> go_run g = true ->
+  ag_start a c = mkastep [] (ORaise (RuntimeError RtAgenRunning)) a None /\
+  go_start g c = mkgstep [] (ORaise (RuntimeError RtAgenRunning)) g None.
+Proof. exact second_consumer. Qed.
+Print Assumptions C06_second_consumer.
+
+(* ayield from any depth of nested native awaits equals a top-level yield:
+   `r = await g.ayield(d)` issued under n pass-through coroutine frames, with
+   the code after it [kr] and the handlers around it [ke], IS the yield node of
+   `r = yield d`, and its continuation is bisimilar to the flat one
+   ([resume_with kr ke]: kr v on send(v), ke e on throw(e)) for every input
+   except a thrown StopIteration (converted by oob()'s generator frame). *)
+Theorem C06_nested_ayield : forall (n : nat) (d : val) (kr : val -> coro) (ke : exn -> coro),
+  exists k1, await_ KCoro (ayield_frames n d) kr ke = Eff (EUser 0 d) (Susp d k1) /\
+             forall i, (forall v, i <> Throw (StopIteration v)) -> eqv (k1 i) (resume_with kr ke i).
+Proof. exact nested_ayield. Qed.
+Print Assumptions C06_nested_ayield.
